@@ -280,10 +280,14 @@ impl<T: RealNumber + Sum> KMeans<T> {
             let mut index = 0;
             while index < n {
                 cost += d[index];
-                if cost >= cutoff {
+                // a row that coincides with an already chosen centroid (weight 0) is never drawn
+                if cost >= cutoff && d[index] > T::zero() {
                     break;
                 }
                 index += 1;
+            }
+            if index == n {
+                index = (0..n).rev().find(|&i| d[i] > T::zero()).unwrap_or(0);
             }
 
             data.copy_row_as_vec(index, &mut centroid);
